@@ -43,8 +43,8 @@ def shapes():
   return S
 
 
-def program(shape, version, home):
-  stmts = [Ann('@AttachDatabase("logica_home", "%s");' % home)]
+def program(shape, version, home, alias='logica_home'):
+  stmts = [Ann('@AttachDatabase("%s", "%s");' % (alias, home))]
   for g in shape['grounds']:
     if g in shape['explicit']: stmts.append(Ann('@Ground(%s, "%s");' % (g, shape['explicit'][g])))
     else: stmts.append(Ann('@Ground(%s);' % g))
@@ -89,7 +89,8 @@ def sval(v):
 
 
 class Machine:
-  def __init__(self, shape_name, init, workdir):
+  def __init__(self, shape_name, init, workdir, alias='logica_home'):
+    self.alias = alias
     self.shape = shapes()[shape_name]; self.shape_name = shape_name; self.init = init; self.workdir = workdir
     self.scripts = {}
     self.home = os.path.join(workdir, 'home.db')
@@ -97,7 +98,7 @@ class Machine:
   def script(self, version, pred):
     k = (version, pred)
     if k not in self.scripts:
-      text = program(self.shape, version, self.home).text()
+      text = program(self.shape, version, self.home, self.alias).text()
       out = impl.compile_pred(text, pred)
       self.scripts[k] = (out, text)
     return self.scripts[k]
@@ -115,6 +116,21 @@ class Machine:
   def apply(self, version, op):
     """execute one operation on the real file; -> (new version, output or None)"""
     if op == 'switch': return ('B' if version == 'A' else 'A'), None
+    if op == 'wfall':
+      # every predicate of the program requested in ONE workflow run, compiled from one program object (tools/run_in_terminal.RunMany)
+      u = impl.M('compiler.universe'); rt = impl.M('tools.run_in_terminal'); cl = impl.M('common.concertina_lib')
+      import contextlib as _c, io as _io
+      try:
+        text = program(self.shape, version, self.home, self.alias).text()
+        rules = impl.quiet(impl.parse, text)['rule']
+        prog = impl.quiet(u.LogicaProgram, rules); execs = []
+        for pr in self.shape['preds']:
+          impl.quiet(prog.FormattedPredicateSql, pr); execs.append(prog.execution)
+        with _c.redirect_stdout(_io.StringIO()):
+          res = cl.ExecuteLogicaProgram(execs, rt.SqlRunner('sqlite'), 'sqlite', display_mode='silent')
+        return version, ('many', {pr: (list(res[pr][0]), sorted([[sval(v) for v in r] for r in res[pr][1]])) for pr in self.shape['preds']})
+      except Exception as e:
+        return version, ('sql-error', type(e).__name__, str(e)[:200])
     via_workflow = op.startswith('wf:')
     op = op[3:] if via_workflow else op
     out, text = self.script(version, op)
@@ -143,6 +159,16 @@ class Machine:
 def model_apply(m, mstate, version, op):
   """reference model: -> (new model state, new version, expected output)"""
   if op == 'switch': return mstate, ('B' if version == 'A' else 'A'), None
+  if op == 'wfall':
+    new = dict(mstate); outs = {}
+    for pr in m.shape['preds']:
+      cols, rows, ev = model_rows(m.shape, version, pr)
+      outs[pr] = (list(cols), sorted([[sval(v) for v in r] for r in rows]))
+      for g in m.shape['grounds']:
+        if g != pr and g in deps_closure(ev, pr):
+          gc, gr = ev.rows(g)
+          new[table_name(m.shape, g)] = [list(gc), sorted([[sval(v) for v in r] for r in gr])]
+    return new, version, ('many', outs)
   op = op[3:] if op.startswith('wf:') else op
   cols, rows, ev = model_rows(m.shape, version, op)
   new = dict(mstate)
@@ -157,12 +183,12 @@ def norm_dump(d):
   return {k: [sorted(v[0]), sorted([sorted(zip(v[0], r)) for r in v[1]])] for k, v in d.items()}
 
 
-def explore_machine(shape_name, init, depth):
+def explore_machine(shape_name, init, depth, alias='logica_home'):
   workdir = tempfile.mkdtemp(prefix='verif_c17_')
   viol = []; stats = dict(transitions=0, comparisons=0, replays=0); samples = []
   try:
-    m = Machine(shape_name, init, workdir)
-    ops = list(m.shape['preds']) + ['wf:' + p for p in m.shape['preds']] + ['switch']
+    m = Machine(shape_name, init, workdir, alias)
+    ops = list(m.shape['preds']) + ['wf:' + p for p in m.shape['preds']] + ['wfall', 'switch']
     def build(hist):
       """fresh file, replay history on the real implementation and on the model"""
       m.reset(); stats['replays'] += 1
@@ -181,7 +207,7 @@ def explore_machine(shape_name, init, depth):
     frontier = collections.deque([()])
     def bad(sig, what, hist):
       viol.append(dict(sig='%s/%s' % (sig, shape_name), what='%s | shape=%s init=%s history=%s' % (what, shape_name, init, list(hist)),
-                       case=dict(shape=shape_name, init=init, history=list(hist))))
+                       case=dict(shape=shape_name, init=init, alias=alias, history=list(hist))))
     while frontier:
       hist = frontier.popleft()
       if len(hist) >= depth: continue
@@ -191,7 +217,18 @@ def explore_machine(shape_name, init, depth):
         stats['transitions'] += 1
         _, before, out, mout = last
         pname = op[3:] if op.startswith('wf:') else op
-        if op != 'switch':
+        if op == 'wfall':
+          stats['comparisons'] += 2
+          if out[0] != 'many': bad('run-failed', 'run of all predicates at once failed: %s' % (out,), nxt)
+          else:
+            for pr, (ecols, erows) in mout[1].items():
+              hdr, rows = out[1][pr]
+              got = sorted([[r[hdr.index(c)] for c in ecols] for r in rows]) if sorted(hdr) == sorted(ecols) else None
+              if got != erows: bad('wrong-output-when-requested-together', '%s printed %s %s, model %s %s' % (pr, hdr, rows[:6], ecols, erows[:6]), nxt)
+          if norm_dump(d) != norm_dump(mstate):
+            diff = [k for k in set(d) | set(mstate) if norm_dump(d).get(k) != norm_dump(mstate).get(k)]
+            bad('wrong-table-contents', 'after the joint run tables %s differ: file %s, model %s' % (diff, {k: d.get(k) for k in diff}, {k: mstate.get(k) for k in diff}), nxt)
+        elif op != 'switch':
           stats['comparisons'] += 2
           if out[0] != 'rows':
             bad('run-failed', 'run(%s) failed: %s' % (op, out), nxt)
@@ -238,13 +275,16 @@ def explore_machine(shape_name, init, depth):
 def plan(ctx):
   depth = 4 if ctx.thorough else 3
   names = list(shapes())
-  return [('m', n, init, depth) for n in names for init in ('empty', 'stale')]
+  tasks = [('m', n, init, depth, 'logica_home') for n in names for init in ('empty', 'stale')]
+  # the persistent file attached under the default dataset alias itself
+  tasks += [('m', n, 'empty', depth, 'logica_test') for n in names if not shapes()[n]['explicit']][:6]
+  return tasks
 
 
 def work(task):
-  _, name, init, depth = task
-  r = explore_machine(name, init, depth)
-  r['keys'] = dict(outcomes={(name, init, i) for i in range(r['stats']['states'])})
+  _, name, init, depth, alias = task
+  r = explore_machine(name, init, depth, alias)
+  r['keys'] = dict(outcomes={(name, init, alias, i) for i in range(r['stats']['states'])})
   return r
 
 
@@ -260,7 +300,7 @@ def coverage(ctx, merged):
 
 
 def replay(ctx, case):
-  r = explore_machine(case['shape'], case['init'], len(case['history']))
+  r = explore_machine(case['shape'], case['init'], len(case['history']), case.get('alias', 'logica_home'))
   return r['viol']
 
 
